@@ -99,9 +99,49 @@ spec fn isIP4(ip []byte) bool = len(ip) == 4 || isV4Mapped(ip)
 // behaviour must be called on non-nil receivers.
 func (*HostPort).UnmarshalText
   requires hp != nil
+  modifies *hp
+  ensures accepts: err == nil <==> (splitOK(strid(b)) && decOKId(splitPort(strid(b)), 16))
+  ensures parts: err == nil ==> strid(hp.Host) == splitHost(strid(b)) && hp.Port == decOfId(splitPort(strid(b)))
+  ensures error_keeps: err != nil ==> hp.Host == old(hp.Host) && hp.Port == old(hp.Port)
 
+func (HostPort).MarshalText
+  ensures parses_back: err == nil && (noBrackets(hp.Host) ==> splitOK(strid(b)) &&
+    splitHost(strid(b)) == strid(hp.Host) && decOKId(splitPort(strid(b)), 16) && decOfId(splitPort(strid(b))) == hp.Port)
+
+// Host-port text (property C14), over content identities of texts; splitOK /
+// splitHost / splitPort / decOKId / decOfId are the assumed contracts of
+// packages net and strconv.
+func JoinHostPort
+  ensures splits_back: noBrackets(host) ==> splitOK(strid(hostport)) &&
+    splitHost(strid(hostport)) == strid(host) && decOKId(splitPort(strid(hostport)), 16) &&
+    decOfId(splitPort(strid(hostport))) == port
+
+func SplitHostPort
+  ensures accepts: err == nil <==> (splitOK(strid(hostport)) && decOKId(splitPort(strid(hostport)), 16))
+  ensures parts: err == nil ==> strid(host) == splitHost(strid(hostport)) && port == decOfId(splitPort(strid(hostport)))
+
+func ParseHostPort
+  ensures safe_result: err == nil ==> hp != nil
+  ensures accepts: err == nil <==> (splitOK(strid(addr)) && decOKId(splitPort(strid(addr)), 16))
+  ensures parts: err == nil ==> hp != nil && strid(hp.Host) == splitHost(strid(addr)) && hp.Port == decOfId(splitPort(strid(addr)))
+  ensures rejected_is_nil: err != nil ==> hp == nil
+
+func (HostPort).String
+  ensures parses_back: noBrackets(hp.Host) ==> splitOK(strid(s)) &&
+    splitHost(strid(s)) == strid(hp.Host) && decOKId(splitPort(strid(s)), 16) && decOfId(splitPort(strid(s))) == hp.Port
+
+// Prefix.UnmarshalText (property C14): text with a slash is netip's prefix
+// syntax; a bare address becomes the single-address prefix of full length.
 func (*Prefix).UnmarshalText
   requires p != nil
+  modifies p.Prefix
+  ensures with_slash: indexByte(str(b), '/') >= 0 ==>
+    (err == nil <==> parsePrefixOK(str(b))) && (err == nil ==> p.Prefix == parsePrefix(str(b)))
+  ensures bare_address: indexByte(str(b), '/') < 0 && len(b) > 0 ==>
+    (err == nil <==> parseAddrOK(str(b))) &&
+    (err == nil ==> prefBits(p.Prefix) == (addrIs4(parseAddr(str(b))) ? 32 : 128) &&
+      (!addrZoned(parseAddr(str(b))) ==> prefAddr(p.Prefix) == parseAddr(str(b))))
+  ensures error_keeps: err != nil ==> p.Prefix == old(p.Prefix)
 
 func ZeroPrefix
   requires fam == AddrFamilyIPv4 || fam == AddrFamilyIPv6
